@@ -143,7 +143,7 @@ fn lens_of_interest() -> Vec<usize> {
     v
 }
 
-fn enumerate(_: &Ctx) -> Box<dyn Iterator<Item = Case>> {
+pub fn enumerate(_: &Ctx) -> Box<dyn Iterator<Item = Case>> {
     let mut v = Vec::new();
     for len in lens_of_interest() {
         v.push(Case { len, key: len as u64, plants: vec![] });
@@ -172,7 +172,7 @@ fn enumerate(_: &Ctx) -> Box<dyn Iterator<Item = Case>> {
     Box::new(v.into_iter())
 }
 
-fn strategy(_: &Ctx) -> BoxedStrategy<Case> {
+pub fn strategy(_: &Ctx) -> BoxedStrategy<Case> {
     (
         prop_oneof![2 => 0usize..200, 2 => 8100usize..8300, 3 => 0usize..16384],
         any::<u64>(),
